@@ -29,7 +29,7 @@ ASSUMPTIONS = [
     'a datapackage.json that does not parse as JSON is treated as absent (the statement speaks of a parseable descriptor)',
 ]
 BUDGET = {'quick': dict(examples=32, shards=16, seconds=80, chunk=6),
-          'thorough': dict(examples=1600, shards=16, seconds=1500, chunk=10)}
+          'thorough': dict(examples=1600, shards=16, seconds=1200, chunk=10)}
 
 
 @st.composite
